@@ -12,7 +12,9 @@ use super::{
 };
 
 // Type aliases for complex pattern matching types (using type IDs)
-type PatternAnalysisResult = (Vec<(String, usize)>, Vec<BindingSet>, usize);
+// Bindings, binding sets, the type of the value when the pattern matches, and whether the match can
+// fail at runtime. The last two are separate facts: a failable match need not match a nil value.
+type PatternAnalysisResult = (Vec<(String, usize)>, Vec<BindingSet>, usize, bool);
 type TupleMatchResult = Vec<(usize, Vec<(usize, usize)>)>;
 // Field info plus how to rebuild a variant's narrowed type: the variant's fields, the matched
 // field indices, and the optional tuple name (`None` for a partial match, which keeps the input type).
@@ -152,7 +154,7 @@ pub fn analyze_pattern(
 
     if binding_sets.is_empty() {
         // Won't match - return never type (empty union)
-        return Ok((Vec::new(), Vec::new(), program.never()));
+        return Ok((Vec::new(), Vec::new(), program.never(), true));
     }
 
     // Check if all binding sets have requirements (might match) or some have none (will match)
@@ -176,15 +178,7 @@ pub fn analyze_pattern(
         .collect();
     all_bindings.sort_by(|a, b| a.0.cmp(&b.0));
 
-    // Include [] in the result type if there are runtime requirements (might match)
-    let result_type_id = if will_match {
-        narrowed_type_id
-    } else {
-        let nil_id = program.register_type(Type::nil());
-        union_type_ids(program, vec![nil_id, narrowed_type_id])
-    };
-
-    Ok((all_bindings, binding_sets, result_type_id))
+    Ok((all_bindings, binding_sets, narrowed_type_id, !will_match))
 }
 
 /// Generate bytecode for pattern matching
